@@ -76,6 +76,7 @@ def handleMp (fs : List (String × String)) : String := Id.run do
     | none => return "PARSE mut"
   let bad : Option String :=
     if rdec == "PANIC" || rmut == "PANIC" then some "panic"
+    else if getD fs "mk" "none" == "trunc" && rmut != "ERR" then some s!"truncated-message-decoded:{kindS}:{rmut}"
     else if rdec != want then some s!"wire-struct-does-not-round-trip:{kindS}:sent={want},received={rdec}"
     else none
   return verdict agree bad (real.length ≥ 24) s!"mp-{kindS}-{mutTag}" (String.intercalate ";" notes)
